@@ -29,8 +29,17 @@ func c14MultiDoc(w *mon.Worker, idx int) mon.Result {
 		docs[i] = c14FlatDoc(r, format, keys)
 	}
 	var texts []string
-	for _, d := range docs {
-		texts = append(texts, d.JSON())
+	for i, d := range docs {
+		t := d.JSON()
+		// the first document may carry a leading comment: what an encoder keeps from it must not show up in
+		// front of the next document
+		// (the first document only: how comments between two documents of one stream are attached is the parser's
+		// business and differs from the leading-content path of a file's first document)
+		if (format == "xml" || format == "props") && r.IntN(2) == 0 && i == 0 {
+			t = fmt.Sprintf("# lead %d\n%s", i, t)
+			res.Tags = append(res.Tags, "leading_comment")
+		}
+		texts = append(texts, t)
 	}
 	res.Case = map[string]any{"format": format, "docs": texts}
 	res.Sig = fmt.Sprintf("multidoc|%s|%x", format, hashStr(strings.Join(texts, "\n")))
